@@ -10,6 +10,16 @@ mod proj_quill;
 mod gen_quill;
 mod drivers;
 
+// The binary crate of /repo exposes no library: its version graph and bridge-method modules are compiled into the
+// harness from /repo's working tree, with the few crate-level items they refer to supplied here.
+pub struct Official;
+pub struct Intermediary;
+pub struct Named;
+pub mod download { pub mod versions_manifest { #[derive(Debug, Clone, PartialEq)] pub struct MinecraftVersion(pub String); } }
+#[allow(dead_code, deprecated, unused)]
+#[path = "/repo/src/version_graph.rs"]
+mod version_graph;
+
 use std::io::{BufRead, BufReader, BufWriter, Write};
 use std::panic::{catch_unwind, AssertUnwindSafe};
 use serde_json::{json, Value};
